@@ -3,6 +3,7 @@ package checkers
 import (
 	"go/ast"
 	"go/token"
+	"go/types"
 	"strconv"
 
 	"github.com/go-critic/go-critic/checkers/internal/astwalk"
@@ -56,8 +57,7 @@ func (c *boolExprSimplifyChecker) VisitExpr(x ast.Expr) {
 	// this is why we record valuable info before doing it.
 	c.hasFloats = lintutil.ContainsNode(x, func(n ast.Node) bool {
 		if x, ok := n.(*ast.BinaryExpr); ok {
-			return typep.HasFloatProp(c.ctx.TypeOf(x.X).Underlying()) ||
-				typep.HasFloatProp(c.ctx.TypeOf(x.Y).Underlying())
+			return c.maybeFloat(c.ctx.TypeOf(x.X)) || c.maybeFloat(c.ctx.TypeOf(x.Y))
 		}
 		return false
 	})
@@ -66,6 +66,16 @@ func (c *boolExprSimplifyChecker) VisitExpr(x ast.Expr) {
 	if !astequal.Expr(x, y) {
 		c.warn(x, y)
 	}
+}
+
+// maybeFloat reports whether a value of type typ can be a floating-point number.
+// The underlying type of a type parameter is its constraint interface, so
+// type parameters are treated conservatively.
+func (c *boolExprSimplifyChecker) maybeFloat(typ types.Type) bool {
+	if _, ok := types.Unalias(typ).(*types.TypeParam); ok {
+		return true
+	}
+	return typep.HasFloatProp(typ.Underlying())
 }
 
 func (c *boolExprSimplifyChecker) simplifyBool(x ast.Expr) ast.Expr {
